@@ -23,6 +23,16 @@ func TestC19(t *testing.T) {
 			}
 			defer func() { batch = batch[:0] }()
 			r.Idle()
+			// cold measurement first: one pass right after two collections
+			if coldMallocs(batch) > 0 {
+				if z := findColdAllocating(batch); z != nil {
+					n := coldMallocs([]*zcase{z})
+					c := &core.Case{Prop: "C19", Kind: "alloc-cold", In: z.in, Strs: []string{c19Funcs[z.fn]}}
+					r.Fail(c, fmt.Errorf("%s allocates %d times in a successful call on %.80q made right after a garbage collection (caller-side buffers warmed; state the caller cannot warm is cold)", c19Funcs[z.fn], n, z.in))
+					return false
+				}
+				r.Label("noise.cold-batch-nonzero-not-confirmed")
+			}
 			if allocsOf(batch, 3) == 0 {
 				return true
 			}
